@@ -407,6 +407,55 @@ func checkC08(c *Ctx, r *Report) {
 		r4.guard(f, "store key", findInstrs(f, callPred("(github.com/ipfs/go-datastore.Write).Put")), "p.MatchesPublicKey(pk)", edgeBool(matchPK, true), nil)
 	}
 
+	// RSA size limits: generation and both unmarshal paths draw the same lines (too small iff bits < Min, too big iff bits > max),
+	// so every key that can be generated or whose private half loads can also have its public half loaded
+	for _, k := range []string{crP + ".GenerateRSAKeyPair", crP + ".UnmarshalRsaPublicKey", crP + ".UnmarshalRsaPrivateKey"} {
+		f := r4.need(k)
+		if f == nil {
+			continue
+		}
+		isGlobal := func(name string) func(ssa.Value) bool {
+			return func(v ssa.Value) bool {
+				u, ok := strip2(v).(*ssa.UnOp)
+				if !ok || u.Op != token.MUL {
+					return false
+				}
+				g, ok := u.X.(*ssa.Global)
+				return ok && g.Name() == name
+			}
+		}
+		isBits := func(v ssa.Value) bool {
+			if isParamVar(c, v, "bits") {
+				return true
+			}
+			return isResultOfCall(strip2(v), 0, "(*math/big.Int).BitLen") != nil
+		}
+		retOf := func(errName string) []ssa.Instruction {
+			var out []ssa.Instruction
+			for _, ret := range returnsOf(f) {
+				if isGlobal(errName)(ret.Results[len(ret.Results)-1]) || isGlobal(errName)(retVal(ret, len(ret.Results)-1)) {
+					out = append(out, ret)
+				}
+			}
+			return out
+		}
+		big, small := retOf("ErrRsaKeyTooBig"), retOf("ErrRsaKeyTooSmall")
+		var okRets []ssa.Instruction
+		for _, ret := range returnsOf(f) {
+			if isNilConst(retVal(ret, len(ret.Results)-1)) {
+				okRets = append(okRets, ret)
+			}
+		}
+		if len(big) == 0 || len(small) == 0 || len(okRets) == 0 {
+			r4.Fail(k+": size limits", f.Pos(), "the too-small / too-big rejections were not found", "")
+			continue
+		}
+		r4.guard(f, "return ErrRsaKeyTooBig", big, "bits > maxRsaKeyBits", edgeExcl(isBits, isGlobal("maxRsaKeyBits"), ordLT, ordEQ), nil)
+		r4.guard(f, "return ErrRsaKeyTooSmall", small, "bits < MinRsaKeyBits", edgeExcl(isBits, isGlobal("MinRsaKeyBits"), ordGT, ordEQ), nil)
+		r4.guard(f, "return key", okRets, "bits <= maxRsaKeyBits", edgeExcl(isBits, isGlobal("maxRsaKeyBits"), ordGT), nil)
+		r4.guard(f, "return key", okRets, "bits >= MinRsaKeyBits", edgeExcl(isBits, isGlobal("MinRsaKeyBits"), ordLT), nil)
+	}
+
 	// ---- R5 ---------------------------------------------------------------
 	r5 := r.Rule("C08-R5", "E7/E1/E6", 8, "peer ID derivation: inline bound 42; identity hash only when enabled and short; MatchesPublicKey compares the derived ID; marshalled key = f(Type(), Raw())")
 	peerP := "core/peer"
@@ -422,30 +471,75 @@ func checkC08(c *Ctx, r *Report) {
 			r5.Check(mk != nil && isParamVar(c, mk.Common().Args[0], "pk"), "IDFromPublicKey: hashes MarshalPublicKey(pk)", instrPos(sums[0].(ssa.Instruction)), 1, "", "", "")
 			ident := constIntObj(c, "github.com/multiformats/go-multihash", "IDENTITY")
 			sha := constIntObj(c, "github.com/multiformats/go-multihash", "SHA2_256")
-			okLeaves := true
-			for _, l := range phiLeaves(a[1]) {
+			isInl := func(v ssa.Value) bool {
+				u, ok := v.(*ssa.UnOp)
+				if !ok || u.Op != token.MUL {
+					return false
+				}
+				g, ok := u.X.(*ssa.Global)
+				return ok && g.Name() == "AdvancedEnableInlining"
+			}
+			isMaxC := func(v ssa.Value) bool { k, isC := constInt(v); return isC && k == maxInline }
+			lenOfKey := func(v ssa.Value) bool {
+				call, _ := v.(*ssa.Call)
+				return call != nil && calleeKey(call) == "builtin.len" && strip(call.Call.Args[0]) == strip(a[0])
+			}
+			// where the algorithm is chosen: here (constants joined by a phi), or in a helper given len(b)
+			g := f
+			isLen := lenOfKey
+			var consts []ssa.Value
+			var identTargets func() (func(ssa.Instruction) bool, EdgePred)
+			if call, isCall := strip2(a[1]).(*ssa.Call); isCall && call.Call.StaticCallee() != nil && call.Call.StaticCallee().Blocks != nil {
+				h := call.Call.StaticCallee()
+				g = h
+				isLen = func(v ssa.Value) bool {
+					p, isP := v.(*ssa.Parameter)
+					if !isP || p.Parent() != h {
+						return false
+					}
+					for i, q := range h.Params {
+						if q == p && i < len(call.Call.Args) {
+							return lenOfKey(call.Call.Args[i])
+						}
+					}
+					return false
+				}
+				var identRets []ssa.Instruction
+				for _, ret := range returnsOf(h) {
+					for _, l := range phiLeaves(ret.Results[0]) {
+						consts = append(consts, l)
+						if k, isC := constInt(l); isC && k == ident {
+							identRets = append(identRets, ret)
+						}
+					}
+				}
+				identTargets = func() (func(ssa.Instruction) bool, EdgePred) { return inSet(identRets), nil }
+			} else {
+				consts = phiLeaves(a[1])
+				identTargets = func() (func(ssa.Instruction) bool, EdgePred) {
+					if phi, ok := a[1].(*ssa.Phi); ok {
+						return nil, edgeSet(phiEdgesWhere(phi, func(v ssa.Value) bool { k, isC := constInt(v); return isC && k == ident }))
+					}
+					// a constant algorithm: IDENTITY unconditionally is a violation, SHA2_256 is fine
+					if k, isC := constInt(a[1]); isC && k == ident {
+						return func(in ssa.Instruction) bool { return in == sums[0].(ssa.Instruction) }, nil
+					}
+					return func(ssa.Instruction) bool { return false }, nil
+				}
+			}
+			okLeaves := len(consts) > 0
+			for _, l := range consts {
 				k, isC := constInt(l)
 				if !isC || (k != ident && k != sha) {
 					okLeaves = false
 				}
 			}
 			r5.Check(okLeaves, "IDFromPublicKey: algorithm is SHA2_256 or IDENTITY", instrPos(sums[0].(ssa.Instruction)), 1, "", "", "")
-			if phi, ok := a[1].(*ssa.Phi); ok {
-				es := phiEdgesWhere(phi, func(v ssa.Value) bool { k, isC := constInt(v); return isC && k == ident })
-				isInl := func(v ssa.Value) bool {
-					u, ok := v.(*ssa.UnOp)
-					if !ok || u.Op != token.MUL {
-						return false
-					}
-					g, ok := u.X.(*ssa.Global)
-					return ok && g.Name() == "AdvancedEnableInlining"
-				}
-				w1, n1 := (&Cut{Fn: f, TargetEdge: edgeSet(es), EdgeCut: edgeBool(isInl, true)}).Run(c)
-				w2, n2 := (&Cut{Fn: f, TargetEdge: edgeSet(es), EdgeCut: edgeExcl(func(v ssa.Value) bool {
-					call, _ := v.(*ssa.Call)
-					return call != nil && calleeKey(call) == "builtin.len" && strip(call.Call.Args[0]) == strip(a[0])
-				}, func(v ssa.Value) bool { k, isC := constInt(v); return isC && k == maxInline }, ordGT)}).Run(c)
-				r5.Check(w1 == "" && w2 == "" && len(es) > 0, "IDFromPublicKey: IDENTITY only under AdvancedEnableInlining && len(b) <= maxInlineKeyLength", f.Pos(), n1+n2, "", "keys longer than the inline bound (or with inlining off) are embedded instead of hashed", w1+w2)
+			{
+				tgt, tgtE := identTargets()
+				w1, n1 := (&Cut{Fn: g, Target: tgt, TargetEdge: tgtE, EdgeCut: edgeBool(isInl, true)}).Run(c)
+				w2, n2 := (&Cut{Fn: g, Target: tgt, TargetEdge: tgtE, EdgeCut: edgeExcl(isLen, isMaxC, ordGT)}).Run(c)
+				r5.Check(w1 == "" && w2 == "", "IDFromPublicKey: IDENTITY only under AdvancedEnableInlining && len(b) <= maxInlineKeyLength", f.Pos(), n1+n2+1, "", "keys longer than the inline bound (or with inlining off) are embedded instead of hashed", w1+w2)
 			}
 			for _, ret := range successReturns(f) {
 				r5.Check(isResultOfCall(retVal(ret.(*ssa.Return), 0), 0, "github.com/multiformats/go-multihash.Sum") != nil, "IDFromPublicKey: returns ID(hash)", instrPos(ret), 1, "", "", "")
@@ -453,25 +547,41 @@ func checkC08(c *Ctx, r *Report) {
 		}
 	}
 	if f := r5.need("(" + peerP + ".ID).MatchesPublicKey"); f != nil {
-		for _, ret := range returnsOf(f) {
-			v := retVal(ret, 0)
-			if b, ok := constBool(v); ok {
-				r5.Check(!b, "MatchesPublicKey: constant answer is false", instrPos(ret), 1, "", "", "")
-				continue
+		ders := callsIn(f, peerP+".IDFromPublicKey")
+		okCall := len(ders) == 1 && isParamVar(c, callArgs(ders[0])[0], "pk")
+		// decision table over E: err == nil and Q: id == IDFromPublicKey(pk); the answer is E && Q
+		isDer := func(v ssa.Value) bool { ci, i := resultOf(strip(v)); return len(ders) == 1 && ci == ders[0] && i == 0 }
+		isErr := func(v ssa.Value) bool { ci, i := resultOf(strip(v)); return len(ders) == 1 && ci == ders[0] && i == 1 }
+		isID := func(v ssa.Value) bool { return isParamVar(c, v, "id") }
+		atomE := func(v ssa.Value) (bool, bool) {
+			x, nilOnTrue, ok := nilCmp(v)
+			if !ok || !isErr(x) {
+				return false, false
 			}
-			bo, ok := v.(*ssa.BinOp)
-			okCmp := ok && bo.Op == token.EQL
-			if okCmp {
-				x, y := strip(bo.X), strip(bo.Y)
-				der := func(v ssa.Value) bool {
-					ci := isResultOfCall(v, 0, peerP+".IDFromPublicKey")
-					return ci != nil && isParamVar(c, ci.Common().Args[0], "pk")
-				}
-				id := func(v ssa.Value) bool { return isParamVar(c, v, "id") }
-				okCmp = (der(x) && id(y)) || (der(y) && id(x))
-			}
-			r5.Check(okCmp, "MatchesPublicKey: IDFromPublicKey(pk) == id", instrPos(ret), 1, "", "", describeVal(v))
+			return true, nilOnTrue
 		}
+		atomQ := func(v ssa.Value) (bool, bool) {
+			bo, ok := v.(*ssa.BinOp)
+			if !ok || (bo.Op != token.EQL && bo.Op != token.NEQ) {
+				return false, false
+			}
+			if (isDer(bo.X) && isID(bo.Y)) || (isDer(bo.Y) && isID(bo.X)) {
+				return true, bo.Op == token.EQL
+			}
+			return false, false
+		}
+		tab, okT := boolReturnTable(f, []atomPred{atomE, atomQ}, 0)
+		good := okT && okCall
+		for a, res := range tab {
+			want := 1
+			if a == 3 {
+				want = 2
+			}
+			if res != want {
+				good = false
+			}
+		}
+		r5.Check(good, "MatchesPublicKey: true exactly when IDFromPublicKey(pk) succeeds and equals id (decision table)", f.Pos(), 4, "", "a key matches an ID it does not derive to (or fails to match its own)", fmt.Sprint(tab))
 	}
 	if f := r5.need(crP + ".MarshalPublicKey"); f != nil {
 		for _, ret := range returnsOf(f) {
